@@ -206,6 +206,21 @@ theorem attr_element_dm (lead : List Nat) (r c i j : Nat) (hi : i < r) (hj : j <
 
 example : selDM [3, 2] 3 2 [2, 1] = .ok 5 ∧ selDM [4, 3] 3 1 [2, 1] = .ok 1 := ⟨rfl, rfl⟩
 
+/-- Shapes with a dimension of size 1 and DM attributes of inner symbols: a column matrix `x[n,1]`
+    with a DM attribute of shape `(n, 1)` gives `x[i,1]` entry `i` (two indices are applied, the test
+    is `iterator_shape[-2:] == value.shape`, not "the DM is a column"); a vector `w[n]` inside an array
+    of `l` components (`n ≠ 1` or `l ≠ n`: the last two dimensions are not the DM's shape) gives
+    `a[k].w[i]` entry `i` for every `k`. -/
+theorem attr_element_dm_column (n l k i : Nat) (hi : i < n) :
+    selDM [n, 1] n 1 [i, 0] = .ok i ∧ selDM [n] n 1 [i] = .ok i ∧
+    (([l, n] : List Nat) ≠ [n, 1] → selDM [l, n] n 1 [k, i] = .ok i) := by
+  refine ⟨by simp [selDM, selDMFull, hi], by simp [selDM, selDMFull, hi], ?_⟩
+  intro hne
+  simp [selDM, selDMFull, hne, hi]
+
+example : selDM [3, 1] 3 1 [2, 0] = .ok 2 ∧ selDM [2, 3] 3 1 [1, 2] = .ok 2 ∧ ([2, 3] : List Nat) ≠ [3, 1] :=
+  ⟨rfl, rfl, by decide⟩
+
 /-- A non-scalar MX attribute (an expression of array parameters, shape `(r, c)` = the variable's
     MX shape): the scalar `(i, j)` reads the storage position of element `(i, j)` — the same
     position `elemPos` the renamed point uses — and a 1-D variable's scalar `i` reads position `i`. -/
